@@ -1,10 +1,16 @@
 import GBS.Model.MolProb
 import GBS.Props.C11
 import GBS.Props.C09
+import GBS.Lemmas.GenBasic
 import Mathlib.Tactic.Ring
+import Mathlib.Tactic.FieldSimp
 /-!
 # C19 — ensemble probability of linear directed chains
 
+* `C19_equals_generation_prefix` / `C19_equals_generation_endgroups`: the reported value `chainProb` equals the generation
+  probability `genProb` (the product over blocks of `F(n·u) − F((n−1)·u)`) for a prefix-token start, and for an end-group start
+  whose end groups are massless (`[H]`) and all found at the ends of the chain (their start probabilities add up to one);
+  `chainProb_no_offset`: in general (no start mass inside a block) it is the sum of the matching start probabilities times that product;
 * `C19_block_factor`: without start-fragment mass inside a block, the factor of a block with `n` units of mass `u` is
   `F(n·u) − F((n−1)·u)`: the probability that the drawn target falls in the stop interval of unit `n` (C07 / C09) when the law
   has no atom at the cumulative masses;
@@ -89,5 +95,119 @@ theorem C19_prefix_start (cands : List (Rat × Rat × Bool)) (s : StartFrag) (h 
 /-- non-vacuity / worked example: the pinned test molecule `{[][<]C(N)C[>]; [<][H], [>]CO []}`, 14 units -/
 example : chainPoints (startFrags false [(1, 0, true), (1, 2801/100, true)]) [{ n := 14, u := 38029/1000 }] =
     [(1/2, [(532406/1000, 494377/1000)]), (1/2, [(2801/100 + 532406/1000, 2801/100 + 494377/1000)])] := by decide +kernel
+
+
+/-- the factor of block `i` in the generation probability: the law's mass between the cumulative block masses before and after
+the last unit -/
+def blockFactor (F : Nat → Rat → Rat) (i : Nat) (b : ChainBlock) : Rat := F i (b.n * b.u) - F i ((b.n - 1 : Int) * b.u)
+
+/-- probability that generation gives these block sizes -/
+def genProb (F : Nat → Rat → Rat) (blocks : List ChainBlock) : Rat :=
+  ((withIdx blocks).map fun (i, b) => blockFactor F i b).foldl (· * ·) 1
+
+theorem withIdx_map_withIdx {α β} (l : List α) (g : Nat × α → β) :
+    withIdx ((withIdx l).map g) = (withIdx l).map fun p => (p.1, g p) := by
+  apply List.ext_getElem?
+  intro k
+  rw [withIdx_getElem?, List.getElem?_map, List.getElem?_map, withIdx_getElem?]
+  cases l[k]? <;> simp
+
+theorem blockPoints_zero (s : StartFrag) (h : s.intoBlock0 = false ∨ s.mass = 0) (i : Nat) (b : ChainBlock) :
+    blockPoints s i b = ((b.n : Rat) * b.u, ((b.n : Int) - 1 : Int) * b.u) := by
+  unfold blockPoints
+  have : (if i = 0 ∧ s.intoBlock0 = true then s.mass else 0) = 0 := by
+    rcases h with h | h
+    · simp [h]
+    · split <;> simp [h]
+  simp only [this, zero_add]
+
+theorem start_term (F : Nat → Rat → Rat) (s : StartFrag) (h : s.intoBlock0 = false ∨ s.mass = 0) (blocks : List ChainBlock) :
+    ((withIdx ((withIdx blocks).map fun (i, b) => blockPoints s i b)).map fun (i, (v, pr)) => F i v - F i pr).foldl (· * ·) 1 =
+      genProb F blocks := by
+  unfold genProb
+  rw [withIdx_map_withIdx, List.map_map]
+  congr 1
+  apply List.map_congr_left
+  intro p _
+  obtain ⟨i, b⟩ := p
+  simp only [Function.comp, blockPoints_zero s h i b, blockFactor]
+
+theorem sumRat_map_mul_right (l : List Rat) (c : Rat) : sumRat (l.map (· * c)) = sumRat l * c := by
+  induction l with
+  | nil => simp [sumRat]
+  | cons a l ih =>
+    simp only [List.map_cons, sumRat, List.foldr_cons] at ih ⊢
+    rw [ih]; ring
+
+/-- without start mass inside a block, the reported value is (sum of the start probabilities) × the generation probability -/
+theorem chainProb_no_offset (F : Nat → Rat → Rat) (starts : List StartFrag) (blocks : List ChainBlock)
+    (h : ∀ s ∈ starts, s.intoBlock0 = false ∨ s.mass = 0) :
+    chainProb F starts blocks = sumRat (starts.map (·.prob)) * genProb F blocks := by
+  unfold chainProb chainPoints
+  rw [List.map_map]
+  have : (starts.map ((fun (x : Rat × List (Rat × Rat)) => x.1 * ((withIdx x.2).map fun (i, (v, pr)) => F i v - F i pr).foldl (· * ·) 1) ∘
+      fun s => (s.prob, (withIdx blocks).map fun (i, b) => blockPoints s i b))) = (starts.map (·.prob)).map (· * genProb F blocks) := by
+    rw [List.map_map]
+    apply List.map_congr_left
+    intro s hs
+    simp only [Function.comp]
+    rw [start_term F s (h s hs) blocks]
+  rw [this, sumRat_map_mul_right]
+
+
+theorem sumRat_map_div_const (l : List Rat) (c : Rat) : sumRat (l.map (· / c)) = sumRat l / c := by
+  induction l with
+  | nil => simp [sumRat]
+  | cons a l ih =>
+    simp only [List.map_cons, sumRat, List.foldr_cons] at ih ⊢
+    rw [ih]; ring
+
+theorem filterMap_all_ok (l : List (Rat × Rat × Bool)) (tot : Rat) (hall : ∀ c ∈ l, c.2.2 = true) :
+    (l.filterMap fun (x : Rat × Rat × Bool) =>
+      if x.2.2 = true then some ({ prob := x.1 / tot, mass := x.2.1, intoBlock0 := true } : StartFrag) else none) =
+    l.map fun x => ({ prob := x.1 / tot, mass := x.2.1, intoBlock0 := true } : StartFrag) := by
+  induction l with
+  | nil => rfl
+  | cons a l ih =>
+    have ha := hall a (by simp)
+    simp only [List.filterMap_cons, ha, if_true, List.map_cons]
+    rw [ih (fun c hc => hall c (by simp [hc]))]
+
+/-- when every end group of the first object matches an end of the chain, the start probabilities add up to one -/
+theorem startFrags_probs (cands : List (Rat × Rat × Bool)) (hall : ∀ c ∈ cands, c.2.2 = true)
+    (htot : sumRat (cands.map (·.1)) ≠ 0) : sumRat ((startFrags false cands).map (·.prob)) = 1 := by
+  unfold startFrags
+  simp only [Bool.false_eq_true, if_false]
+  rw [filterMap_all_ok cands _ hall, List.map_map]
+  have h2 : (cands.map ((fun (s : StartFrag) => s.prob) ∘ fun x => ({ prob := x.1 / sumRat (cands.map (·.1)), mass := x.2.1, intoBlock0 := true } : StartFrag))) =
+      (cands.map (·.1)).map (· / sumRat (cands.map (·.1))) := by
+    rw [List.map_map]; rfl
+  rw [h2, sumRat_map_div_const]
+  field_simp
+
+/-- **C19 (equals the generation probability)**, end-group start: all end groups of the first object are massless (`[H]`) and sit
+at the ends of the chain: the reported value is the product of the block factors -/
+theorem C19_equals_generation_endgroups (F : Nat → Rat → Rat) (cands : List (Rat × Rat × Bool)) (blocks : List ChainBlock)
+    (hall : ∀ c ∈ cands, c.2.2 = true ∧ c.2.1 = 0) (htot : sumRat (cands.map (·.1)) ≠ 0) :
+    chainProb F (startFrags false cands) blocks = genProb F blocks := by
+  rw [chainProb_no_offset, startFrags_probs cands (fun c hc => (hall c hc).1) htot, one_mul]
+  intro s hs
+  right
+  unfold startFrags at hs
+  simp only [Bool.false_eq_true, if_false, List.mem_filterMap] at hs
+  obtain ⟨c, hc, hs⟩ := hs
+  split at hs
+  · injection hs with hs; subst hs; exact (hall c hc).2
+  · cases hs
+
+/-- **C19 (equals the generation probability)**, prefix start: the prefix token starts with probability 1 and its mass enters no block -/
+theorem C19_equals_generation_prefix (F : Nat → Rat → Rat) (w m : Rat) (blocks : List ChainBlock) :
+    chainProb F (startFrags true [(w, m, true)]) blocks = genProb F blocks := by
+  have hs : startFrags true [(w, m, true)] = [{ prob := 1, mass := m, intoBlock0 := false }] := by
+    simp [startFrags]
+  rw [hs, chainProb_no_offset]
+  · simp [sumRat]
+  · intro s hs'; simp at hs'; subst hs'; left; rfl
+
 
 end GBS
